@@ -826,6 +826,8 @@ theorem countCall_defaultLogOf (i : Nat) (h : Hook) (ps : List Plugin) : countCa
 def credOk (c v : Bytes) : Prop :=
   (splitWs v).length = 2 ∧ ((splitWs v)[0]?).map lower = some Auth.BASIC ∧ (splitWs v)[1]? = some c
 
+instance (c v : Bytes) : Decidable (credOk c v) := by unfold credOk; infer_instance
+
 /-- the same for the (optional) value found under `proxy-authorization` -/
 def CredOk (c : Bytes) (o : Option Bytes) : Prop := ∃ v, o = some v ∧ credOk c v
 
@@ -866,8 +868,7 @@ theorem splitWsAux_tok (s rest cur : Bytes) (hs : noWs s) :
   | cons c cs ih =>
     have h1 : isWs c = false := hs c List.mem_cons_self
     simp only [List.cons_append, splitWsAux, h1]
-    rw [ih _ (fun d hd => hs d (List.mem_cons_of_mem _ hd))]
-    simp
+    simpa using ih (c :: cur) (fun d hd => hs d (List.mem_cons_of_mem _ hd))
 
 theorem splitWs_two (w0 s w1 t w2 : Bytes) (h0 : allWs w0) (hs : noWs s) (hsne : s ≠ []) (h1 : allWs w1)
     (h1ne : w1 ≠ []) (ht : noWs t) (htne : t ≠ []) (h2 : allWs w2) :
@@ -888,12 +889,12 @@ theorem splitWs_two (w0 s w1 t w2 : Bytes) (h0 : allWs w0) (hs : noWs s) (hsne :
     | nil => exact absurd rfl htne
     | cons a as => simp
   cases w2 with
-  | nil => simp [splitWsAux, htr]
+  | nil => simp [splitWsAux, htr, htne]
   | cons d ds =>
     have hd : isWs d = true := h2 d List.mem_cons_self
     have hrest := splitWsAux_ws ds [] (fun x hx => h2 x (List.mem_cons_of_mem _ hx))
     simp only [List.append_nil] at hrest
-    simp [splitWsAux, hd, htr, hrest]
+    simp [splitWsAux, hd, htr, hrest, htne]
 
 /-! ### header lines → header map -/
 
@@ -911,12 +912,16 @@ def lineVal (l : Bytes) : Bytes :=
 
 theorem processHeader_same (h : HMap) (l : Bytes) : hVal? (processHeader h l) (lineKey l) = some (lineVal l) := by
   unfold processHeader lineKey lineVal hVal? hAdd
-  split <;> simp [dGet_dSet_same]
+  cases hsp : splitOnce1 COLON l with
+  | none => simp [dGet_dSet_same]
+  | some kv => obtain ⟨k, v⟩ := kv; simp [dGet_dSet_same]
 
 theorem processHeader_other (h : HMap) (l k : Bytes) (hk : lineKey l ≠ k) :
     hVal? (processHeader h l) k = hVal? h k := by
   unfold processHeader lineKey hVal? hAdd at *
-  split <;> rename_i heq <;> simp only [heq] at hk <;> rw [dGet_dSet_other _ _ _ _ hk]
+  cases hsp : splitOnce1 COLON l with
+  | none => simp only [hsp] at hk ⊢; rw [dGet_dSet_other _ _ _ _ hk]
+  | some kv => obtain ⟨k', v⟩ := kv; simp only [hsp] at hk ⊢; rw [dGet_dSet_other _ _ _ _ hk]
 
 theorem foldl_processHeader_other (post : List Bytes) (h : HMap) (k : Bytes) (hp : ∀ m ∈ post, lineKey m ≠ k) :
     hVal? (post.foldl processHeader h) k = hVal? h k := by
@@ -957,5 +962,60 @@ theorem loadBucket_ext (bk : Bytes) (l : List (Bytes × Bytes)) (acc : List Byte
       · intro hm
         exact hd x hx (List.mem_append_left _ hm)
     · exact ih acc
+
+
+/-! ### what `shutdown()` adds to a connection's log: lifecycle effects only -/
+
+theorem upCloseAll_life (s : Nat) (ps : List Plugin) : ∀ e ∈ upCloseAll s ps, lifeE e = true := by
+  induction ps generalizing s with
+  | nil => simp [upCloseAll]
+  | cons p ps ih =>
+    intro e he
+    simp only [upCloseAll, List.mem_cons] at he
+    rcases he with rfl | h
+    · rfl
+    · exact ih _ e h
+
+theorem shutdownLog_life (ps : List Plugin) (st : St) : ∀ e ∈ shutdownLog ps st, lifeE e = true := by
+  rw [shutdownLog_eq]
+  split
+  · intro e he
+    simp only [List.mem_append] at he
+    rcases he with (he | he) | he
+    · obtain ⟨j, a, rfl, _, _⟩ := chain_mem _ _ _ _ _ _ e he
+      rfl
+    · unfold defaultLogOf at he
+      split at he <;> simp at he
+      subst he; rfl
+    · exact upCloseAll_life _ _ e he
+  · simp
+
+theorem life_obs (l : Log) (h : ∀ e ∈ l, lifeE e = true) :
+    connects l = [] ∧ upBytes l = [] ∧ clItems l = [] ∧ (∀ i hk a, Eff.call i hk a ∈ l → reqHook hk = false) := by
+  induction l with
+  | nil => simp
+  | cons e rest ih =>
+    have h1 := h e List.mem_cons_self
+    obtain ⟨a1, a2, a3, a4⟩ := ih (fun x hx => h x (List.mem_cons_of_mem _ hx))
+    refine ⟨?_, ?_, ?_, ?_⟩
+    · cases e <;> simp_all [lifeE, connOf]
+    · cases e <;> simp_all [lifeE, upOfE]
+    · cases e <;> simp_all [lifeE, clItems]
+    · intro i hk a hm
+      simp only [List.mem_cons] at hm
+      rcases hm with rfl | hm
+      · simpa [lifeE] using h1
+      · exact a4 i hk a hm
+
+theorem sdPart_obs (ps : List Plugin) (st : St) (n : Nat) :
+    connects (List.replicate n (shutdownLog ps st)).flatten = [] ∧
+    upBytes (List.replicate n (shutdownLog ps st)).flatten = [] ∧
+    clItems (List.replicate n (shutdownLog ps st)).flatten = [] ∧
+    (∀ i hk a, Eff.call i hk a ∈ (List.replicate n (shutdownLog ps st)).flatten → reqHook hk = false) := by
+  apply life_obs
+  intro e he
+  simp only [List.mem_flatten, List.mem_replicate] at he
+  obtain ⟨l, ⟨_, rfl⟩, hel⟩ := he
+  exact shutdownLog_life ps st e hel
 
 end Px.Chain
